@@ -11,7 +11,7 @@ func runC07(k int, rng *Rng) CaseResult {
 	clockNewCase(clockModeFor(cfg))
 	installHooks(stdHooks())
 	w := NewWorld("C07", rng, cfg, caseDir(k, "c07"))
-	w.predict, w.storeWant = true, true
+	w.predict, w.storeWant = true, false
 	defer w.Cleanup()
 	if !w.OpenCreate() {
 		return w.finish(nil, false, nil)
